@@ -11,6 +11,7 @@ import (
 	"time"
 
 	"github.com/ipfs/go-datastore"
+	contextds "github.com/ipfs/go-datastore/context"
 
 	"github.com/celestiaorg/go-header"
 )
@@ -79,17 +80,42 @@ func (s *Store[H]) deleteSingle(
 		}
 	}
 
-	if err := s.ds.Delete(ctx, hashKey(hash)); err != nil {
-		return fmt.Errorf("delete hash key (%X): %w", hash, err)
-	}
-	if err := s.ds.Delete(ctx, heightKey(height)); err != nil {
-		return fmt.Errorf("delete height key (%d): %w", height, err)
+	// the header and its height index go away together: a failure between two separate deletes
+	// would leave a header that is gone by hash yet still indexed by height
+	if err := s.deleteKeys(ctx, hashKey(hash), heightKey(height)); err != nil {
+		return fmt.Errorf("delete header %d (%X): %w", height, hash, err)
 	}
 
 	s.cache.Remove(hash.String())
 	s.heightIndex.cache.Remove(height)
 	s.pending.DeleteRange(height, height+1)
 	return nil
+}
+
+// deleteKeys deletes the given keys atomically: through the write batch the context carries when the
+// datastore is context-aware (committed by whoever attached it), in a batch of their own otherwise.
+func (s *Store[H]) deleteKeys(ctx context.Context, keys ...datastore.Key) error {
+	if _, aware := s.ds.Children()[0].(*contextds.Datastore); aware {
+		if _, ok := contextds.GetWrite(ctx); ok {
+			for _, key := range keys {
+				if err := s.ds.Delete(ctx, key); err != nil {
+					return err
+				}
+			}
+			return nil
+		}
+	}
+
+	batch, err := s.ds.Batch(ctx)
+	if err != nil {
+		return fmt.Errorf("new batch: %w", err)
+	}
+	for _, key := range keys {
+		if err := batch.Delete(ctx, key); err != nil {
+			return err
+		}
+	}
+	return batch.Commit(ctx)
 }
 
 // deleteSequential deletes [from:to) header range from the store sequentially
